@@ -16,7 +16,12 @@ func judgeStream(prop, cfg string, rp *ref.Problem, cost *ref.Cost, items []solv
 		out.fail("C20", "not-closed-at-return", "[%s] result channel still open when the call returned", cfg)
 	}
 	if len(items) == 0 {
-		out.fail("C20", "empty-stream", "[%s] nothing was delivered on the result channel before it was closed (returned %s)", cfg, statusStr(ret.Status))
+		// the property speaks of the results that are delivered; a Sat answer that never reaches the
+		// channel contradicts "the last delivered result equals the returned one", an Unsat answer
+		// that is only returned does not
+		if ret.Status == solver.Sat {
+			out.fail("C20", "empty-stream", "[%s] the call returned a Sat result but nothing was delivered on the result channel before it was closed", cfg)
+		}
 		return
 	}
 	if len(items) >= 3 {
